@@ -1793,6 +1793,55 @@ fn gen_b(o: &Opts) -> Vec<String> {
         v.push(mk(Strat::User, 1, t, 1, vec![both(vec![st(Rep::Tc, 7 * g)], vec![st(Rep::Ans, 8 * g)])]));
         // TCP keeps answering truncated: re-queued until the deadline ends the loop
         v.push(mk(Strat::User, 1, t, 1, vec![both(vec![st(Rep::Tc, 5 * g / 2)], vec![st(Rep::Tc, 3 * g)])]));
+        // parallel batches (ncr 2 and 3): a NON-FINAL reply (I/O error, reset, busy, untrusted NXDOMAIN,
+        // truncated) arrives at 0.3 / 0.6 / 0.9 T next to peers of the same batch that never reply (or
+        // reply after T): the wait for the remaining replies must still end at the deadline, not a full
+        // budget after the last reply.  Single and multiple non-final replies, first and later rounds.
+        {
+            let tp = [260u64, 300, 340, 280, 320, 360][rep_i % 6];
+            let at = |tenths: u64| tp * tenths / 10;
+            let hang = || udp_only(vec![st(Rep::To, 3 * tp)], true);
+            let late_ans = || udp_only(vec![st(Rep::Ans, at(14))], true);
+            let nonfinal = |kind: usize, lat: u64| -> Srv {
+                match kind {
+                    0 => udp_only(vec![st(Rep::Io, lat)], true),
+                    1 => udp_only(vec![st(Rep::Rst, lat)], true),
+                    2 => udp_only(vec![st(Rep::Busy, lat), st(Rep::To, 3 * tp)], true),
+                    3 => udp_only(vec![st(Rep::Nx, lat)], false),
+                    _ => both(vec![st(Rep::Tc, lat)], vec![st(Rep::To, 3 * tp)]),
+                }
+            };
+            for kind in 0..5 {
+                for tenths in [3u64, 6, 9] {
+                    // one hanging peer, batch of two; non-final server first or second in the batch
+                    v.push(mk(Strat::User, 2, tp, 1, vec![nonfinal(kind, at(tenths)), hang()]));
+                    // two hanging peers, batch of three
+                    v.push(mk(Strat::User, 3, tp, 1, vec![hang(), nonfinal(kind, at(tenths)), hang()]));
+                    // a peer that answers after the deadline
+                    v.push(mk(Strat::User, 2, tp, if kind == 0 { 3 } else { 1 }, vec![late_ans(), nonfinal(kind, at(tenths))]));
+                }
+                // several non-final replies in one batch of three, then silence
+                v.push(mk(Strat::User, 3, tp, 1, vec![nonfinal(kind, at(3)), nonfinal((kind + 1) % 4, at(6)), hang()]));
+                v.push(mk(Strat::User, 3, tp, 1, vec![nonfinal(kind, at(2)), nonfinal((kind + 3) % 4, at(5)), nonfinal((kind + 2) % 4, at(8)), hang()]));
+                // later round: the first batch fails completely at 0.2 T, the second has a non-final reply at
+                // 0.2 T + 0.4 T next to a hanging peer
+                v.push(mk(
+                    Strat::User,
+                    2,
+                    tp,
+                    1,
+                    vec![udp_only(vec![st(Rep::Io, at(1))], true), udp_only(vec![st(Rep::Io, at(2))], true), nonfinal(kind, at(4)), hang()],
+                ));
+            }
+            // reset on a REUSED connection inside a parallel batch: the reconnected request hangs
+            v.push(mk(
+                Strat::User,
+                2,
+                tp,
+                1,
+                vec![Srv { trust: true, warm: 0, pre_udp: true, pre_tcp: false, udp: Some(vec![st(Rep::Rst, at(5)), st(Rep::To, 3 * tp)]), tcp: None }, hang()],
+            ));
+        }
         // random grid cases
         for _ in 0..(if o.thorough() { 12 } else { 10 }) {
             let n = r.range(1, 3) as usize;
